@@ -386,7 +386,79 @@ pub fn sample_ks(rng: &mut Rng, n: usize, w: usize) -> Vec<usize> {
     ks
 }
 
+/// Mode "mi": the public `MaskedIter` alone, over a `Vec` iterator, on (referenced list,
+/// block list) pairs: canonical ones (what the compressor emits), decoder-shaped ones (first
+/// block >= 0, later blocks >= 1, sum within the list, any parity) and malformed ones (zero
+/// blocks anywhere, sums beyond the list, empty list).  Reports `len()` right after `new`,
+/// the drained items, or the panic.
+fn run_mi(seed: u64, count: usize, out: &mut impl Write) {
+    let mut rng = Rng::new(seed);
+    let dbg = cfg!(debug_assertions) as usize;
+    for i in 0..count {
+        let n = if rng.chance(1, 10) { 0 } else { rng.range(1, 14) };
+        let mut l: Vec<usize> = Vec::new();
+        let mut v = rng.below(5);
+        for _ in 0..n {
+            l.push(v);
+            v += 1 + rng.below(4);
+        }
+        let class = rng.below(10);
+        let mut bs: Vec<usize> = Vec::new();
+        if class < 4 {
+            // canonical: alternate copy/skip runs over the list, drop the block that
+            // reaches the end
+            let mut left = n;
+            let mut first = true;
+            while left > 0 {
+                let b = if first && rng.chance(1, 3) { 0 } else { rng.range(1, left) };
+                first = false;
+                if b == left { break; }
+                bs.push(b);
+                left -= b;
+            }
+        } else if class < 8 {
+            // decoder-shaped: sum within the list, any parity, possibly reaching the end
+            let mut left = n;
+            let k = rng.below(6);
+            for j in 0..k {
+                let lo = if j == 0 { 0 } else { 1 };
+                if left < lo { break; }
+                let b = if rng.chance(1, 3) { left } else { rng.range(lo, left) };
+                bs.push(b);
+                left -= b;
+            }
+        } else {
+            // malformed: anything small
+            let k = rng.below(6);
+            for _ in 0..k {
+                bs.push(if rng.chance(1, 4) { 0 } else { rng.below(n + 3) });
+            }
+        }
+        let (l2, bs2) = (l.clone(), bs.clone());
+        let r = catch(AssertUnwindSafe(move || {
+            let mut it = MaskedIter::new(l2.into_iter(), bs2);
+            let len = it.len();
+            let mut got: Vec<usize> = Vec::new();
+            for _ in 0..10_000 {
+                match it.next() {
+                    Some(x) => got.push(x),
+                    None => break,
+                }
+            }
+            (len, got)
+        }));
+        let head = format!("acc id=mi{i} kind=mi dbg={dbg} class={class} l={} bs={}", fmt_ints(&l), fmt_ints(&bs));
+        match r {
+            Ok((len, got)) => writeln!(out, "{head} status=ok len={len} out={}", fmt_ints(&got)).unwrap(),
+            Err(e) => writeln!(out, "{head} status=panic msg={}", sanitize(&e)).unwrap(),
+        }
+    }
+}
+
 pub fn run(seed: u64, count: usize, max_n: usize, mode: &str, out: &mut impl Write) {
+    if mode == "mi" {
+        return run_mi(seed, count, out);
+    }
     let mut rng = Rng::new(seed);
     let dir = tempfile::Builder::new().prefix("wgverif-acc").tempdir().unwrap();
     for i in 0..count {
